@@ -67,6 +67,16 @@ pub fn codegen(args: &CodegenArgs) -> Result<()> {
     Ok(())
 }
 
+/// Build the type registry for `crate_name` from crate descriptions supplied by `load`
+/// (test-only instrumentation: a public entry to the private `run`).
+#[cfg(feature = "verif")]
+pub fn verif_run<F>(crate_name: &str, load: F) -> Result<Registry>
+where
+    F: Fn(&str) -> Result<Crate>,
+{
+    run(crate_name, load)
+}
+
 fn run<F>(crate_name: &str, load: F) -> Result<Registry>
 where
     F: Fn(&str) -> Result<Crate>,
